@@ -194,7 +194,7 @@ and is evaluated as such by the stub, linear in the symbolic ordinates).  Quick 
 
 # units added after the third and fourth seed rounds (details and reasons in section 8)
 _ADDED = {
- "C03": "Added after the seed rounds: the interleaved centred cell `nacl8i` (supercell atoms not stored in blocks per primitive atom) and the strongly sheared supercell `[[1,0,0],[1,2,0],[1,1,2]]` (non-orthogonal Niggli transformation).",
+ "C03": "Fifth round: `basic-sparse` / `point_group-sparse` units run the same obligations with the sparse shortest-vector layout (`store_dense_svecs=False`).  Added after the seed rounds: the interleaved centred cell `nacl8i` (supercell atoms not stored in blocks per primitive atom) and the strongly sheared supercell `[[1,0,0],[1,2,0],[1,1,2]]` (non-orthogonal Niggli transformation).",
  "C04": "Added in the fifth round: `count guard` facts — cells made of a fully centred sublattice and a partial one (k < m translates; I, A, C, F, R) must be refused by `get_primitive` and by `TrimmedCell`'s own atom-count check.",
  "C05": "Added after the seed rounds: near-ties decided by a caller-given `symprec`; a `primitive` unit comparing the tables *as stored on `Primitive`* (primitive basis) with brute-force minimum images on cells with non-symmetric (P⁻¹S)ᵀ.",
  "C09": "Added after the fourth seed round: `consequence` units — `ThermalProperties` (Python and compiled paths, cutoff and imaginary modes on q-points of weight > 1) on irreducible points + weights equals the sums over the full grid, for a model dispersion that is exactly invariant under the reciprocal point group, time reversal and reciprocal translations (ground facts).",
